@@ -16,7 +16,7 @@ Ltac upd_case m n :=
 Ltac unfold_do :=
   unfold do_start, do_grant, do_bump, do_follow, do_count, do_win, do_client_append,
          do_send_append, do_recv_ok, do_recv_ack, do_advance, do_crash, do_lose_grant,
-         do_net_appends, do_drop_ack in *.
+         do_net_appends, do_drop_ack, do_flush in *.
 
 Section RaftVotes.
 Variable V : list N.
@@ -375,6 +375,11 @@ Proof.
       try reflexivity; try apply incl_refl; auto.
   - apply (vinv_frame s _ Hv); unfold do_drop_ack; simpl;
       try reflexivity; try apply incl_refl; auto.
+  - (* flush *)
+    apply (vinv_frame s _ Hv); unfold do_flush; simpl;
+      try reflexivity; try apply incl_refl.
+    + intros n0. upd_case n0 n; simpl; auto.
+    + intros n0 Hr. upd_case n0 n; simpl; reflexivity.
 Qed.
 
 Lemma reachable_vinv s : Reachable V s -> vinv s.
